@@ -27,7 +27,8 @@ ASSUMPTIONS = [
     "std::set/std::map behave per the standard (begin() is the minimum; insert of an equal element is a no-op)",
     "times are multiples of MIN_TD, so x+MIN_TD is the immediate successor of x",
 ]
-DECIDED = ["a invariant tags=tagged events", "b admission", "c graph sees earliest", "d queries", "e runtime re-arm", "f injection"]
+DECIDED = ["a invariant tags=tagged events", "b admission", "c graph sees earliest", "d queries", "e runtime re-arm", "f injection",
+           'i started is set after the user start hook (= C14.e)']
 NOT_DECIDED = ["multi-node interplay", "external mutation of NodeSchedulerState"]
 
 EV = r"state_->events"
